@@ -152,6 +152,8 @@ type fnTrans struct {
 	seqViews      map[string]Term
 	ghostParams   []bound
 	usedImmut     map[string]bool
+	locPtrs       map[string]Term
+	lockGhosts    map[string]bound
 	allowed       map[string][]Term
 	allowedAll    bool
 	allowedDone   bool
@@ -1045,6 +1047,8 @@ func (t *fnTrans) pass() {
 	}
 	t.axiomTerms, t.extraQueries, t.usedAxioms, t.optAxioms = nil, nil, nil, map[string]Term{}
 	t.seqViews, t.seqFacts = nil, nil
+	t.locPtrs = nil
+	t.lockGhosts = nil
 	t.allowedDone, t.allowed, t.allowedAll = false, nil, false
 	t.S.decls, t.S.declared, t.S.axioms = nil, map[string]bool{}, nil
 	t.S.strLits, t.S.strOrder = map[string]string{}, nil
